@@ -21,6 +21,8 @@ case "$dir" in
   *) mod=.; pkg=".";;
 esac
 TAGS=""; grep -q -- "-tags verif" "$SD/README.md" && TAGS="-tags verif"
+# a demonstration of a data race only fails under the race detector: honour a README that says so
+grep -q -- "go test[^\n]* -race" "$SD/README.md" && TAGS="$TAGS -race"
 git apply "$SD/patch.diff" || { echo "DEMO-NOT-CONFIRMED patch does not apply"; exit 1; }
 ( cd "$COPY/$mod" && timeout 900 go test $TAGS -count=1 -run "${TP}${ID}${V}" "$pkg" ) > "$COPY/with.log" 2>&1; rc_with=$?
 git apply -R "$SD/patch.diff"
